@@ -29,6 +29,35 @@ pub static VERSIONS: [AutosarVersion; 21] = [
     AutosarVersion::Autosar_00053,
 ];
 
+/// the schema file name of each version, from the AUTOSAR naming scheme (the harness's own table: the crate's
+/// `AutosarVersion::filename()` is part of what is checked)
+pub static XSD_NAMES: [&str; 21] = [
+    "AUTOSAR_4-0-1.xsd",
+    "AUTOSAR_4-0-2.xsd",
+    "AUTOSAR_4-0-3.xsd",
+    "AUTOSAR_4-1-1.xsd",
+    "AUTOSAR_4-1-2.xsd",
+    "AUTOSAR_4-1-3.xsd",
+    "AUTOSAR_4-2-1.xsd",
+    "AUTOSAR_4-2-2.xsd",
+    "AUTOSAR_4-3-0.xsd",
+    "AUTOSAR_00042.xsd",
+    "AUTOSAR_00043.xsd",
+    "AUTOSAR_00044.xsd",
+    "AUTOSAR_00045.xsd",
+    "AUTOSAR_00046.xsd",
+    "AUTOSAR_00047.xsd",
+    "AUTOSAR_00048.xsd",
+    "AUTOSAR_00049.xsd",
+    "AUTOSAR_00050.xsd",
+    "AUTOSAR_00051.xsd",
+    "AUTOSAR_00052.xsd",
+    "AUTOSAR_00053.xsd",
+];
+pub fn xsd_name(v: AutosarVersion) -> &'static str {
+    XSD_NAMES[version_index(v)]
+}
+
 pub fn version_index(v: AutosarVersion) -> usize {
     (v as u32).trailing_zeros() as usize
 }
